@@ -316,3 +316,165 @@ T("C07", "mapping encoder iterating keys then indexing is outside: keep items() 
             enc = serialization._encode_tree
             enc(out, key, key_type)
             enc(out, val, val_type)""")
+
+# ---------------------------------------------------------------------------
+# C02
+F("C02", "preferred_addr / rebase_delta swapped in both directions", "module.py",
+  """        proto_module.preferred_addr = self.preferred_addr""",
+  """        proto_module.preferred_addr = self.rebase_delta""", "R02.2",
+  more=[("module.py", """        proto_module.rebase_delta = self.rebase_delta""",
+         """        proto_module.rebase_delta = self.preferred_addr"""),
+        ("module.py", """            preferred_addr=proto_module.preferred_addr,
+            rebase_delta=proto_module.rebase_delta,""",
+         """            preferred_addr=proto_module.rebase_delta,
+            rebase_delta=proto_module.preferred_addr,""")])
+F("C02", "reader swaps preferred_addr / rebase_delta", "module.py",
+  """            preferred_addr=proto_module.preferred_addr,
+            rebase_delta=proto_module.rebase_delta,""",
+  """            preferred_addr=proto_module.rebase_delta,
+            rebase_delta=proto_module.preferred_addr,""", "R02.3")
+F("C02", "two ISA members swapped", "module.py",
+  """        ARM = Module_pb2.ISA.Value("ARM")""", """        ARM = Module_pb2.ISA.Value("ARM64")""", "R02.4",
+  more=[("module.py", """        ARM64 = Module_pb2.ISA.Value("ARM64")""", """        ARM64 = Module_pb2.ISA.Value("ARM")""")])
+F("C02", "one SymAttribute member deleted", "symbolicexpression.py",
+  """        TLSLDO = SymbolicExpression_pb2.SymAttribute.Value("TLSLDO")
+""", "", "R02.4")
+F("C02", "byte_order never written", "module.py",
+  """        proto_module.byte_order = self.byte_order.value
+""", "", "R02.1")
+F("C02", "has_address by truthiness", "byteinterval.py",
+  """        if self.address is None:
+            proto_interval.has_address = False
+        else:
+            proto_interval.has_address = True
+            proto_interval.address = self.address""",
+  """        proto_interval.has_address = bool(self.address)
+        if self.address:
+            proto_interval.address = self.address""", "R02.2")
+F("C02", "version byte written before the reserved bytes", "ir.py",
+  """        protobuf_file.write(b"\\0")
+        protobuf_file.write(b"\\0")
+        protobuf_file.write(PROTOBUF_VERSION.to_bytes(1, byteorder="little"))""",
+  """        protobuf_file.write(PROTOBUF_VERSION.to_bytes(1, byteorder="little"))
+        protobuf_file.write(b"\\0")
+        protobuf_file.write(b"\\0")""", "R02.5")
+F("C02", "reader compares the seventh byte", "ir.py",
+  """        protobuf_file.read(1)
+        protobuf_file.read(1)
+
+        version = int.from_bytes(protobuf_file.read(1), byteorder="little")""",
+  """        protobuf_file.read(1)
+        version = int.from_bytes(protobuf_file.read(1), byteorder="little")
+        protobuf_file.read(1)
+""", "R02.5")
+F("C02", "decode_mode written as the enum object's name", "block.py",
+  """        proto_block.decode_mode = self.decode_mode.value""",
+  """        proto_block.decode_mode = int(self.decode_mode.name == "Thumb")""", "R02.2")
+F("C02", "DecodeMode read as a raw int", "block.py",
+  """            decode_mode=cls.DecodeMode(proto_block.decode_mode),""",
+  """            decode_mode=proto_block.decode_mode,""", "R02.4")
+F("C02", "vertices list only names code blocks", "ir.py",
+  """        proto_cfg.vertices.extend(v.uuid.bytes for v in self.cfg_nodes)""",
+  """        proto_cfg.vertices.extend(v.uuid.bytes for v in self.code_blocks)""", "R02.2")
+F("C02", "symbol at_end not read", "symbol.py",
+  """            name=proto_symbol.name, at_end=proto_symbol.at_end, uuid=uuid""",
+  """            name=proto_symbol.name, uuid=uuid""", "R02.3")
+F("C02", "edge source and target swapped by the writer", "cfg.py",
+  """            proto_edge.source_uuid = s.uuid.bytes
+            proto_edge.target_uuid = t.uuid.bytes""",
+  """            proto_edge.source_uuid = t.uuid.bytes
+            proto_edge.target_uuid = s.uuid.bytes""", "R02.2")
+F("C02", "edge label conditional/direct swapped by the reader", "cfg.py",
+  """                    Edge.Type(edge.label.type),
+                    edge.label.conditional,
+                    edge.label.direct,""", """                    Edge.Type(edge.label.type),
+                    edge.label.direct,
+                    edge.label.conditional,""", "R02.3")
+F("C02", "uuid written as a hex string", "section.py",
+  """        proto_section.uuid = self.uuid.bytes""", """        proto_section.uuid = self.uuid.hex.encode()""", "R02.2")
+F("C02", "a proto enum gains a constant the API does not know", "proto/Module.proto",
+  """  MIPS64 = 9;
+};""", """  MIPS64 = 9;
+  RISCV64 = 10;
+};""", "R02.4")
+F("C02", "both oneof alternatives written", "symbol.py",
+  """        if self.value is not None:
+            proto_symbol.value = self.value
+        elif self.referent is not None:""",
+  """        if self.value is not None:
+            proto_symbol.value = self.value
+        if self.referent is not None:""", "R02.1")
+T("C02", "writer assignments reordered and routed through a local", "module.py",
+  """        proto_module.preferred_addr = self.preferred_addr""",
+  """        pa = self.preferred_addr
+        proto_module.preferred_addr = pa""")
+T("C02", "magic written byte-wise differently", "ir.py",
+  """        protobuf_file.write(b"\\0")
+        protobuf_file.write(b"\\0")""", """        protobuf_file.write(b"\\0\\0")""")
+
+# ---------------------------------------------------------------------------
+# C01
+F("C01", "rebase_delta not written", "module.py",
+  """        proto_module.rebase_delta = self.rebase_delta
+""", "", "R01.1")
+F("C01", "at_end dropped by the symbol reader", "symbol.py",
+  """            name=proto_symbol.name, at_end=proto_symbol.at_end, uuid=uuid""",
+  """            name=proto_symbol.name, uuid=uuid""", "R01.1")
+F("C01", "symbol value written only when truthy", "symbol.py",
+  """        if self.value is not None:
+            proto_symbol.value = self.value""",
+  """        if self.value:
+            proto_symbol.value = self.value""", "R01.2")
+F("C01", "has_address from truthiness", "byteinterval.py",
+  """        if self.address is None:
+            proto_interval.has_address = False""",
+  """        if not self.address:
+            proto_interval.has_address = False""", "R01.2")
+F("C01", "block offset restored only when non-zero", "byteinterval.py",
+  """            block.offset = proto_block.offset
+            return block""",
+  """            if proto_block.offset:
+                block.offset = proto_block.offset
+            return block""", "R01.2")
+F("C01", "new constructor attribute that is not persisted", "section.py",
+  """        name: str = "",
+        byte_intervals: typing.Iterable[ByteInterval] = (),""",
+  """        name: str = "",
+        alignment: int = 1,
+        byte_intervals: typing.Iterable[ByteInterval] = (),""", "R01.1")
+F("C01", "AuxData writer skips empty tables", "auxdata.py",
+  """        for k, v in self.aux_data.items():
+            proto_container[k].CopyFrom(v._to_protobuf())""",
+  """        for k, v in self.aux_data.items():
+            if v.data:
+                proto_container[k].CopyFrom(v._to_protobuf())""", "R01.4")
+F("C01", "module AuxData not read", "module.py",
+  """        m.aux_data.update(
+            AuxDataContainer._read_protobuf_aux_data(proto_module.aux_data, ir)
+        )
+""", "", "R01.1")
+F("C01", "symbolic expression attributes not restored", "byteinterval.py",
+  """            for f in v.attribute_flags:
+                try:
+                    expr.attributes.add(SymbolicExpression.Attribute(f))
+                except ValueError:
+                    expr.attributes.add(f)
+""", "", "R01.1")
+F("C01", "symbol referent not restored", "symbol.py",
+  """            symbol.referent = referent
+""", "            pass\n", "R01.1")
+F("C01", "entry point restored only for truthy preferred address", "module.py",
+  """        if proto_module.entry_point:""", """        if proto_module.entry_point and proto_module.preferred_addr:""", "R01.2")
+F("C01", "decode_mode not written", "block.py",
+  """        proto_block.decode_mode = self.decode_mode.value
+""", "", "R01.1")
+T("C01", "is not None written as not ... is None", "symbol.py",
+  """        if self.value is not None:
+            proto_symbol.value = self.value""",
+  """        if not (self.value is None):
+            proto_symbol.value = self.value""")
+T("C01", "independent writer assignments reordered", "module.py",
+  """        proto_module.binary_path = self.binary_path
+        proto_module.isa = self.isa.value""",
+  """        proto_module.isa = self.isa.value
+        proto_module.binary_path = self.binary_path""")
